@@ -219,6 +219,8 @@ def run_sim_class(chk, cls, scs, mons, variant=None, batch=250, tag=None):
             sc["build_twice"] = True           # builder.build() called twice, the second simulator is the one that runs
         if "poll_done" not in sc and k % 4 == 1:
             sc["poll_done"] = True             # is_simulation_done() asked before the run and between steps
+        if "int_numbers" not in sc and k % 7 == 5:
+            sc["int_numbers"] = True           # whole numbers handed over as ints (positions, times, speeds, ranges, delays)
         if "odd_names" not in sc and k % 5 == 3:
             sc["odd_names"] = True             # timer names containing pattern characters ("slot[1]", "s*", "done?")
         if "truthy_preds" not in sc and k % 2 == 1:
@@ -277,7 +279,7 @@ def run_sim_class(chk, cls, scs, mons, variant=None, batch=250, tag=None):
 
 def _brief(sc):
     d = {k: sc[k] for k in ("handlers", "nodes", "med", "mob", "asserts", "seed", "dur", "maxit", "drv", "script")}
-    for k in ("reuse_commands", "fresh_controllers", "odd_names", "truthy_preds", "build_twice", "poll_done", "variant", "stream"):
+    for k in ("reuse_commands", "fresh_controllers", "odd_names", "truthy_preds", "build_twice", "poll_done", "int_numbers", "variant", "stream"):
         if k in sc:
             d[k] = sc[k]
     return d
